@@ -262,7 +262,14 @@ func c19PathNote(p *sxPath) string {
 func c19NonNilErr(e sxVal) bool {
 	switch u := e.(type) {
 	case sxCall:
-		return u.rec.Name == "fmt.Errorf" || u.rec.Name == "errors.New"
+		if u.rec.Name == "fmt.Errorf" || u.rec.Name == "errors.New" {
+			return true
+		}
+		// an error constructor of the module: every return of it is non-nil
+		if v := u.rec.Call.Value(); v != nil && u.rec.Callee != nil && inModule(u.rec.Callee) && isErrorType(v.Type()) {
+			return ErrNilStatus(v, 0) == NonNil
+		}
+		return false
 	case sxInit:
 		_, ok := u.addr.(sxGlobal)
 		return ok
@@ -757,6 +764,19 @@ func c19R2(c *Ctx, a *c19Anchors) {
 					if cl, isCall := ann.(sxCall); isCall && cl.rec.Name == "maps.Clone" && sxSame(cl.rec.Args[0], req) {
 						okCopy = true
 					}
+					// maps.Collect(maps.All(src)) / maps.Insert(dst, maps.All(src))
+					isAll := func(v sxVal) bool {
+						cl, ok := v.(sxCall)
+						return ok && cl.rec.Name == "maps.All" && len(cl.rec.Args) == 1 && sxSame(cl.rec.Args[0], req)
+					}
+					if cl, isCall := ann.(sxCall); isCall && cl.rec.Name == "maps.Collect" && len(cl.rec.Args) == 1 && isAll(cl.rec.Args[0]) {
+						okCopy = true
+					}
+					for _, cp := range p.CallsNamed("maps.Insert") {
+						if cp.NFacts <= n && len(cp.Args) == 2 && sxSame(cp.Args[0], ann) && isAll(cp.Args[1]) {
+							okCopy = true
+						}
+					}
 					if !okCopy {
 						okCopy = c19RangeCopied(p, n, ann, req)
 					}
@@ -783,7 +803,7 @@ func c19R2(c *Ctx, a *c19Anchors) {
 					case !okFill:
 						agg.fail(key, P, in, p, "without a created time the manifest annotations do not get the created key set to time.Now() formatted as RFC 3339")
 					case !okCopy:
-						agg.undecided(key, P, in, "cannot see the caller's annotations being copied into the new map (maps.Copy / maps.Clone expected)")
+						agg.undecided(key, P, in, "cannot see the caller's annotations being copied into the new map (maps.Copy / maps.Clone / maps.Collect(maps.All) / maps.Insert / a range loop expected)")
 					case !sxSame(dann, ann):
 						agg.fail(key, P, in, p, "the annotations of the returned descriptor differ from manifest.Annotations")
 					default:
